@@ -118,14 +118,14 @@ theorem signer_is_validated_leaf {W : World} {c : RegCred} {e : RegExpect} {r : 
     subst h1; subst h2
     exact ⟨leaf, rest, cert, alg, cib, by rw [hx5c, hl], hv, hcert, hci, hs⟩
 
-/-- android-key: x5c carries its own root last; an accepted statement's root certificate is, byte for byte (as PEM), one of
-the anchors in force — the RP's roots for android-key or a built-in Google root — never merely "similar" to one (same subject,
+/-- android-key: x5c carries its own root last; an accepted statement's root certificate is - as a certificate: its canonical
+PEM serialisation equals that of a readable anchor, however the anchor's own file is spelled - one of the anchors in force — the RP's roots for android-key or a built-in Google root — never merely "similar" to one (same subject,
 same key identifier); and the rest of x5c was validated against exactly that certificate. -/
 theorem android_key_root_is_anchor {W : World} {c : RegCred} {e : RegExpect} {r : VerifiedReg}
     (h : runM W (verifyReg c e) = .ok r) (hf : r.fmt = "android-key") :
     ∃ ao roots x5c rootDer rootCert, parseAttObj c.attestationObject = .ok ao ∧ rootsFor e ao.fmt = .ok roots ∧
       x5cList ao.attStmt.x5c = .ok x5c ∧ x5c.getLast? = some rootDer ∧ W.x509Load rootDer = some rootCert ∧
-      rootCert.pem ∈ rpPemsOf roots ++ ((builtinRootNames.lookup "android-key").getD []).map W.builtinPem ∧
+      rootCert.pem ∈ (rpPemsOf roots ++ ((builtinRootNames.lookup "android-key").getD []).map W.builtinPem).filterMap W.pemCanon ∧
       ChainChecked W x5c.dropLast [Root.pem rootCert.pem] := by
   obtain ⟨ao, att, roots, hao, _, hroots, _, _, _, _, _, _, _, hk, _⟩ := (registration h).rules
   obtain ⟨ad, x5c, rootDer, rootCert, leaf, rest, cert, alg, key, pk, kdDer, kd, _, _, hx5c, hlast, hrc, hch, hmem, _⟩ := (hk hf).rules
